@@ -1,12 +1,26 @@
 (* C11 — comparison is a lawful total preorder consistent with == and hash; borrowed orders like owned.
-   Stage reached: the rank layer, the leaf comparisons and identifiers are proved for all terms; the recursive
-   container layer is covered by the exhaustive pair/triple law check of the correspondence run (see DESIGN.md);
-   the full-strength transitivity statement is refuted on the faithful model (recorded finding C11-intransitive). *)
-From EDP Require Import Base.Bytes Base.F64 Term.Term Gen.Ranks Order.Cmp Order.CmpFacts Order.HashStream.
+   Antisymmetry and reflexivity are proved for ALL terms (containers included, by induction over terms), and the
+   borrowed order is proved to be the owned order; the full-strength transitivity statement is refuted on the
+   faithful model (recorded finding C11-intransitive) — where it holds is covered by the exhaustive pair/triple law
+   check of the correspondence run. *)
+From EDP Require Import Base.Bytes Base.F64 Term.Term Gen.Ranks Order.Cmp Order.CmpFacts Order.CmpLaws Order.HashStream.
 
 (* the two rank tables (term.rs term_type_order, borrowed.rs type_order) are the same table *)
 Theorem C11_rank_tables_agree : forall t, rank_owned t = rank_borrowed t.
 Proof. destruct t; vm_compute; reflexivity. Qed.
+
+(* antisymmetry for all terms: a <=> b is the reverse of b <=> a, whatever a and b are (lists, tuples, maps, funs
+   with their free variables, nested arbitrarily) *)
+Theorem C11_antisymmetric : forall a b, cmp_owned a b = CompOpp (cmp_owned b a).
+Proof. exact cmp_owned_antisym. Qed.
+
+(* every term compares Equal to itself (NaN included: Ord must be reflexive even where == is not) *)
+Theorem C11_reflexive : forall a, cmp_owned a a = Eq.
+Proof. exact cmp_owned_refl. Qed.
+
+(* borrowed terms order exactly like their owned counterparts: the two comparison functions are the same function *)
+Theorem C11_borrowed_is_owned : forall a b, cmp_borrowed a b = cmp_owned a b.
+Proof. intros a b. unfold cmp_borrowed, cmp_owned. apply cmp_rank_ext. intros t. symmetry. apply C11_rank_tables_agree. Qed.
 
 (* antisymmetry across ranks, for all terms *)
 Theorem C11_antisym_across_ranks : forall rank a b, (rank a ?= rank b) <> Eq ->
